@@ -4,7 +4,9 @@
 //!    threads=<t>  fb=<u32>  lf=<u64>  dbl=<0|1>  isz=<u32>
 //!    abortpolls=<k>   abort predicate returns true from its k-th poll on (k = 0: always)
 //!    abortms=<ms>     abort predicate returns true once <ms> milliseconds have elapsed
-//! answer: `<result> | <trace> | polls=<total polls> late=<polls answered true> lat_ms=<ms between first true poll and return>`
+//! answer: `<result> | <trace> | polls=<total polls> late=<polls answered true> lat_ms=<ms between first true poll and return> foreign=<k>`
+//!   foreign = abort decisions of factor_impl (trace events `abort`) that were NOT taken by calling the installed predicate
+//!             (the predicate logs every call; a decision must directly follow a call with the same answer); 0 without predicate
 //!   result = `ok f1,f2,...` | `failure`   (a panic answers `panic` for the whole line)
 //!   trace  = sub-algorithm results recorded by yamaquasi::verif_hooks (events `;`, fields `:`)
 use crate::util::*;
@@ -12,6 +14,30 @@ use std::sync::atomic::{AtomicU64, Ordering};
 use std::sync::Arc;
 use std::time::Instant;
 use yamaquasi::{factor, Algo, Preferences, Verbosity};
+
+/// Removes the `poll <ans>` markers that the installed abort predicate pushes on every call and counts the
+/// `abort <n> <ans>` events (decisions of factor_impl) that do not directly follow a call with the same answer:
+/// such a decision consulted something else than the caller's predicate.
+pub fn strip_polls(tr: Vec<String>) -> (Vec<String>, u64) {
+    let mut out = Vec::with_capacity(tr.len());
+    let mut foreign = 0u64;
+    let mut prev: Option<String> = None;
+    for e in tr {
+        if e.starts_with("poll ") {
+            prev = Some(e);
+            continue;
+        }
+        if let Some(rest) = e.strip_prefix("abort ") {
+            let ans = rest.rsplit(' ').next().unwrap_or("");
+            if prev.as_deref() != Some(&format!("poll {ans}")[..]) {
+                foreign += 1;
+            }
+        }
+        prev = None;
+        out.push(e);
+    }
+    (out, foreign)
+}
 
 pub fn algo_of(s: &str) -> Option<Algo> {
     use std::str::FromStr;
@@ -49,6 +75,7 @@ pub fn handle(op: &str, a: &[&str]) -> Option<String> {
                                 late.fetch_add(1, Ordering::SeqCst);
                                 let _ = ft.compare_exchange(0, now.max(1), Ordering::SeqCst, Ordering::SeqCst);
                             }
+                            yamaquasi::verif_hooks::ev(format!("poll {fire}"));
                             fire
                         }));
                     }
@@ -58,7 +85,8 @@ pub fn handle(op: &str, a: &[&str]) -> Option<String> {
             yamaquasi::verif_hooks::start();
             let r = std::panic::catch_unwind(std::panic::AssertUnwindSafe(|| factor(n, alg, &prefs)));
             let end = start.elapsed().as_micros() as u64;
-            let tr = yamaquasi::verif_hooks::take();
+            let (tr, foreign) = strip_polls(yamaquasi::verif_hooks::take());
+            let foreign = if prefs.should_abort.is_some() { foreign } else { 0 };
             let trace = if tr.is_empty() {
                 "-".to_string()
             } else {
@@ -72,7 +100,7 @@ pub fn handle(op: &str, a: &[&str]) -> Option<String> {
             let ft = first_true_us.load(Ordering::SeqCst);
             let lat = if ft == 0 { 0 } else { (end - ft.min(end)) / 1000 };
             Some(format!(
-                "{res} | {trace} | polls={} late={} lat_ms={}",
+                "{res} | {trace} | polls={} late={} lat_ms={} foreign={foreign}",
                 polls.load(Ordering::SeqCst),
                 late.load(Ordering::SeqCst),
                 lat
@@ -144,6 +172,7 @@ pub fn handle(op: &str, a: &[&str]) -> Option<String> {
         // `abort_scan <n> <alg> <threads|0> <maxpolls>`: one run with a predicate that never fires counts the
         // polls P of the run; then one run per flip instant k = 0..=min(P, maxpolls) (predicate true from its
         // k-th poll on). answer: `polls=<P> runs=<k> bad=<k:kind,...|-> maxlat_ms=<ms> incomplete=<runs that left a composite or failed>`
+        // kind `foreign`: factor_impl took an abort decision without calling the installed predicate (see strip_polls)
         "abort_scan" => {
             let n = uint_of(a.first()?)?;
             let alg = algo_of(a.get(1)?)?;
@@ -167,11 +196,14 @@ pub fn handle(op: &str, a: &[&str]) -> Option<String> {
                             let now = start.elapsed().as_micros() as u64;
                             let _ = ft.compare_exchange(0, now.max(1), Ordering::SeqCst, Ordering::SeqCst);
                         }
+                        yamaquasi::verif_hooks::ev(format!("poll {fire}"));
                         fire
                     }));
                 }
+                yamaquasi::verif_hooks::start();
                 let r = std::panic::catch_unwind(std::panic::AssertUnwindSafe(|| factor(n, alg, &prefs)));
                 let end = start.elapsed().as_micros() as u64;
+                let (_, foreign) = strip_polls(yamaquasi::verif_hooks::take());
                 let ft = first_true_us.load(Ordering::SeqCst);
                 let lat = if ft == 0 { 0 } else { (end - ft.min(end)) / 1000 };
                 let kind = match r {
@@ -188,6 +220,7 @@ pub fn handle(op: &str, a: &[&str]) -> Option<String> {
                     Ok(Err(_)) => "failure".to_string(),
                     Err(_) => "panic".to_string(),
                 };
+                let kind = if foreign > 0 && kind != "panic" && kind != "wrong" { "foreign".to_string() } else { kind };
                 (kind, polls.load(Ordering::SeqCst), lat)
             };
             let (k0, p, _) = run(None);
